@@ -7,6 +7,7 @@ B=$ROOT/${VERIF_BUILD_DIR:-.build}/$V
 REPO=${VERIF_REPO:-/repo}
 OUT=$B/harness; mkdir -p "$OUT"
 exec 8>"$ROOT/${VERIF_BUILD_DIR:-.build}/$V.hlock"; flock 8
+if [ "$V" = fine ] && [ ! -d "$B" ]; then echo "lib for $V not built"; exit 2; fi
 if [ "$V" = asan ]; then CC=clang; CXX=clang++; SAN="-fsanitize=address -fsanitize=signed-integer-overflow,integer-divide-by-zero,shift-exponent,float-cast-overflow -fsanitize-recover=all"; else CC=gcc; CXX=g++; SAN=""; fi
 INC="-I$REPO/Source/API -I$REPO/Source/Lib/Common/Codec -I$REPO/Source/Lib/Encoder/Codec -I$REPO/Source/Lib/Encoder/Globals -I$REPO/Source/Lib/Common/C_DEFAULT -I$REPO/Source/Lib/Common/ASM_SSE2 -I$REPO/Source/Lib/Decoder/Codec -I$ROOT/sim -I$ROOT/worlds -I$ROOT/oracles"
 CF="-O2 -g1 -fno-omit-frame-pointer -DSVT_AV1_VERIF -DNDEBUG $SAN"
